@@ -23,7 +23,8 @@ META = {
              'the two graphs while a deep structural snapshot of the OTHER is compared before / after each; 10% of the cases: node '
              'extras that refer to nodes / the attacker of the same graph (itself, earlier, later, mutually) and one extras '
              'object attached to several nodes - every graph object reachable from the copy\'s extras must be the copy\'s own; non-trivial = graph '
-             'with >= 2 nodes, >= 1 edge and an attacker or analysis state; distinct = digest(case)'),
+             'with >= 2 nodes, >= 1 edge and an attacker or analysis state; distinct = digest(case)'
+             '; added strata: node extras that refer to nodes / the attacker of the graph (itself, mutually, from several reached steps), a model asset renamed before the copy'),
     'assumptions': ['the model and the language graph are meant to be shared (C14)'],
     'shards': {'quick': 8, 'thorough': 16},
     'quotas': {
